@@ -582,10 +582,146 @@ def rule_b(ctx):
     rets = [norm(n.value) for n in ast.walk(nv.node) if isinstance(n, ast.Return)]
     ctx.ob(R, nv.qname, "num_voxels is the spatial prefix of the array shape", rets in (["list(self.shape[:self.space_dim])"], ["list(self.img.shape[:self.space_dim])"]),
            str(rets), nv.node)
+    _opposite_corner(ctx, R, m, T_i)
+
+
+def _opposite_corner(ctx, R, m, T_i):
+    """Image.opposite_corner folded per dimension on a symbolic image: either the coordinate system's coordinate() of the voxel behind the
+    last one (shape[:space_dim]), or, written out, origin[c] + s * dimensions[pos(c)] per Cartesian axis (s, pos from the axis table; stores
+    into the array that is returned are replayed).  A work array that takes its dtype from the origin is a named contradiction: the
+    origin may be integer-typed and the extent fractional."""
+    from ..fold import Arr, Folder as SFolder, Obj as SObj, Opaque, Raised as SRaised, Refuse as SRefuse, Sym
+    from ..terms import nf
+
     oc = m.func(IMG, "Image.opposite_corner")
-    rets = [norm(n.value) for n in ast.walk(oc.node) if isinstance(n, ast.Return)]
-    ctx.ob(R, oc.qname, "opposite_corner is coordinate(shape[:space_dim])",
-           rets in (["self.coordinatesystem.coordinate(self.shape[:self.space_dim])"], ["self.coordinatesystem.coordinate(self.num_voxels)"]), str(rets), oc.node)
+
+    def poly(t):
+        if isinstance(t, Opaque):
+            return Poly.atom(t.label)
+        if isinstance(t, Sym) and t.fn in ("+", "-", "*", "/") and len(t.args) == 2 and t.recv is None:
+            a, b = poly(t.args[0]), poly(t.args[1])
+            return {"+": lambda: a + b, "-": lambda: a - b, "*": lambda: a * b, "/": lambda: a / b}[t.fn]()
+        if isinstance(t, Sym) and t.fn == "neg" and len(t.args) == 1:
+            return poly(t.args[0]) * -1
+        if isinstance(t, int) and not isinstance(t, bool):
+            return Poly.const(t)
+        raise NotPolynomial(repr(t))
+
+    for d in (1, 2, 3):
+        ctx.instance(R)
+        o = [Opaque("float", f"o{c}") for c in range(d)]
+        D = [Opaque("float", f"D{k}") for k in range(d)]
+        N = [Opaque("int", f"N{k}") for k in range(d)]
+        log = {}
+        origin = Arr(list(o))
+
+        def coordinate(a, k, log=log):
+            log["arg"] = a[0] if a else None
+            return Opaque("coord", "COORD")
+        cs = SObj("cs", {"__class__": "CoordinateSystem"})
+        so = SObj("self", {"__class__": "Image", "space_dim": d, "indexing": "ijk"[:d], "origin": origin, "dimensions": list(D),
+                           "img": Opaque("ndarray", "IMG", {"shape": tuple(N) + (Opaque("int", "T"),)}), "coordinatesystem": cs})
+        # the coordinate system as its constructor leaves it for this image (statements outside the folding language are skipped)
+        csi = m.func(CS, "CoordinateSystem.__init__")
+        f0 = SFolder(symbolic=True)
+        f0.func_stack.append(csi.node)
+        f0.fold_all_methods = True
+        env0 = {csi.params[0]: cs, (csi.params[1] if len(csi.params) > 1 else "img"): so}
+        so.fields["coordinatesystem"] = SObj("cs0", {"coordinate": coordinate})
+        for st in csi.node.body:
+            try:
+                f0.stmt(st, env0)
+            except (SRefuse, SRaised):
+                pass
+            except Exception:
+                pass
+        so.fields["coordinatesystem"] = cs
+        cs.fields["coordinate"] = coordinate
+        fo = SFolder(symbolic=True)
+        fo.trace = f0.trace
+        fo.func_stack.append(oc.node)
+        fo.fold_all_methods = True
+        fo.overrides = {"darsia.make_coordinate": lambda a, k: a[0], "darsia.Coordinate": lambda a, k: a[0]}
+        title = f"dim {d}: opposite_corner is the coordinate of the voxel behind the last one (origin[c] + s * dimensions[pos(c)])"
+        try:
+            r = fo.call(oc.node, [so])
+        except (SRefuse, SRaised) as e:
+            ctx.ob(R, oc.qname, title, False, f"fold of Image.opposite_corner not found to be possible: {e}", oc.node)
+            continue
+        if isinstance(r, Opaque) and r.label == "COORD":
+            arg = log.get("arg")
+            al = list(arg) if isinstance(arg, (list, tuple)) else (arg.flat() if isinstance(arg, Arr) else None)
+            ok = al is not None and len(al) == d and all(x is y for x, y in zip(al, N))
+            ctx.ob(R, oc.qname, title, ok, f"coordinate() is applied to {nf(arg)[:80]}, not to the spatial shape {[nf(x) for x in N]}", oc.node, evidence=al is not None)
+            continue
+        # written out: replay the recorded stores into the returned array
+        vals = None
+        from_origin = False
+        if isinstance(r, Arr) and len(r.shape) == 1 and len(r.data) == d:
+            vals = list(r.data)
+            from_origin = all(x is y for x, y in zip(vals, o))
+        elif isinstance(r, Sym):
+            vals = [None] * d
+        if vals is not None:
+            for ev in fo.trace:
+                if isinstance(ev, Sym) and ev.fn in ("setitem", "augitem") and ev.args and ev.args[0] is r:
+                    i = ev.args[1]
+                    if not (isinstance(i, int) and not isinstance(i, bool) and 0 <= i < d):
+                        vals = None
+                        break
+                    if ev.fn == "setitem":
+                        vals[i] = ev.args[2]
+                    else:
+                        vals[i] = Sym(ev.args[2], [vals[i], ev.args[3]]) if vals[i] is not None else None
+        if vals is None or any(v is None for v in vals):
+            ctx.ob(R, oc.qname, title, False, f"per-axis value of the corner not found: {nf(r)[:100]}", oc.node)
+            continue
+        bad = []
+        try:
+            for c, a in enumerate("xyz"[:d]):
+                row = T_i[(a, "ijk"[:d])]
+                pos, rev = row[1]
+                want = Poly.atom(f"o{c}") + Poly.atom(f"D{pos}") * (-1 if rev else 1)
+                got = poly(vals[c])
+                # voxel_size[k] * num_voxels[k] is dimensions[k]
+                for k in range(d):
+                    got = got  # (terms written with N_k * (D_k / N_k) cancel in the Laurent polynomial)
+                if got != want:
+                    bad.append(f"{a}: {nf(vals[c])[:70]} (the table prescribes o{c} {'-' if rev else '+'} D{pos})")
+        except NotPolynomial as e:
+            ctx.ob(R, oc.qname, title, False, f"corner not found in polynomial form: {e}", oc.node)
+            continue
+        ctx.ob(R, oc.qname, title, not bad, "; ".join(bad[:2]), oc.node, evidence=True)
+        if from_origin:
+            ctx.ob(R, oc.qname, f"dim {d}: the array that accumulates the corner is a float array of its own", False,
+                   "the corner is accumulated in place in a copy of self.origin, which takes the origin's dtype: with an integer-typed origin (origin=[0, 2], "
+                   "integer dimensions) a fractional extent is truncated on the store", oc.node, evidence=True)
+
+
+def rule_f(ctx):
+    R = "C01.f"
+    ctx.rule(R, "geometric accessors of an image carry no state: hidden-state analysis of Image with every @property as entry -- an accessor "
+             "that keeps its result on the object (opposite corner, coordinate system) must validate it against everything it was computed "
+             "from, or an origin / dimensions assigned later are ignored")
+    from ..state import StateAnalysis
+
+    m = ctx.model
+    k = m.cls(IMG, "Image")
+    props = [n for n, f in k.methods.items() if any(getattr(d_, "id", None) == "property" for d_ in f.node.decorator_list)]
+    ctx.need(len(props) >= 5, "Image: fewer than 5 properties found")
+    sa = StateAnalysis(m, k, props)
+    ctx.instance(R, len(props))
+    seen = set()
+    for f, n, a, kind, an, chain in sa.cross_call_reads():
+        key = (f.qname, a, n.text())
+        if key in seen:
+            continue
+        seen.add(key)
+        ok, why = sa.justify(f, n, a, kind)
+        ctx.ob(R, f.qname, f"read of self.{a} in `{n.text()[:70]}` does not depend on earlier accesses", ok,
+               f"{why}. The value handed out by {' -> '.join(chain)} is the one computed at the first access", an, evidence=True)
+    ctx.ob(R, k.qname, f"{len(props)} accessor(s) of Image analysed for state kept between accesses", True, "", k.node)
+    ctx.floor(R, 5)
 
 
 # ---- C01.c --------------------------------------------------------------------------------
@@ -882,6 +1018,7 @@ def run(ctx):
     rule_c(ctx)
     rule_d(ctx)
     rule_e(ctx)
+    rule_f(ctx)
     # the orientation of the axes is written down twice in the repository (interpret_indexing, and the flips / transposes of the
     # array-layout helpers); C01.a shows the table is self-consistent, the shared rule that the two statements of the convention agree
     from . import c20
